@@ -447,6 +447,8 @@ func (c *FnCtx) loadFieldQuiet(st *State, ref, owner, path string, ft types.Type
 	return v
 }
 
+var jsonDocSort Sort
+
 func (c *FnCtx) specCall(env *SpecEnv, x *ast.CallExpr) *Val {
 	name := ""
 	switch f := x.Fun.(type) {
@@ -620,6 +622,12 @@ func (c *FnCtx) specCall(env *SpecEnv, x *ast.CallExpr) *Val {
 	case "store":
 		a, k, v := arg(0), arg(1), arg(2)
 		return &Val{T: tApp("store", a.T, k.T, v.T), S: a.S}
+	case "jsonDoc":
+		// decision procedure over the structure of the reply term (jsondoc.go)
+		c.assumeNote("jsonDoc(x) is decided by vcgo's own JSON recogniser over the structure of x (literals and classed opaque pieces); trusted")
+		a := arg(0)
+		jsonDocSort = a.S
+		return &Val{T: c.jsonDocTerm(env.st, a.T), S: SBool}
 	case "min", "max":
 		a, b := arg(0), arg(1)
 		op := "<"
